@@ -61,7 +61,8 @@ def pipeline(task):
     orig = {p: v for p, v in before.items() if p == entry or p.startswith(entry + b"/")}
     state = r1["after_state"]
     if entry in state:
-        return {"skip": "not trashed", "name": repr(name), "mismatch": mismatches, "tags": ["kind:" + kind, "layout:" + layout]}
+        return {"skip": "not trashed", "name": repr(name), "mismatch": mismatches, "tags": ["kind:" + kind, "layout:" + layout],
+                "task": jsonable(dict(task))}
     # noise: trash something else, list
     if rng.random() < 0.5:
         w2 = world_from_state(world, state, args=[d + b"/other-entry"], argv=put_argv(opts, [d + b"/other-entry"]),
@@ -124,7 +125,7 @@ def pipeline(task):
                 sorted(gone)[:4], [p for p, v in tro.items() if p not in gone and not same(trn.get(p), v)][:4]))
         if len({p for p in gone if b"/info/" in p}) != 1:
             problems.append("not exactly one info file removed: %r" % sorted(gone)[:4])
-    out = {"skip": None, "name": repr(name), "problems": problems, "mismatch": mismatches,
+    out = {"skip": None, "name": repr(name), "problems": problems, "mismatch": mismatches, "task": jsonable(dict(task)),
            "tags": ["kind:" + kind, "layout:" + layout, "sort:" + sort, "from:" + how,
                     "name-class:" + ("utf8" if _is_utf8(name) else "non-utf8")]}
     if problems or mismatches:
@@ -157,9 +158,9 @@ def run(tier, seed):
                 sample={"name": r["name"], "tags": r["tags"]})
         ck.traces += 1
         for step, m in r["mismatch"]:
-            ck.disagreement("Model (%s) vs trashcli (%s)" % (step, m["what"]), {"world": r.get("world"), "difference": m})
+            ck.disagreement("Model (%s) vs trashcli (%s)" % (step, m["what"]), {"task": r.get("task"), "world": r.get("world"), "difference": m})
         for p in r.get("problems", []):
-            ck.violation(p.split(":")[0][:60], {"oracle": "pipeline"}, {"world": r.get("world"), "problem": p, "name": r["name"],
+            ck.violation(p.split(":")[0][:60], {"oracle": "pipeline"}, {"task": r.get("task"), "world": r.get("world"), "problem": p, "name": r["name"],
                                                                          "restore_opts": r.get("restore_opts"), "restore_cwd": r.get("restore_cwd")})
     ck.exhaustive = False
     ck.extra["exhaustive_subdomains"] = ["every byte 1-255 except '/' as a name and inside a name (thorough; quick: every 7th)"]
@@ -167,5 +168,18 @@ def run(tier, seed):
 
 
 def replay(path):
-    print(open(path).read()[:4000])
-    return 1
+    import json
+    from ..runner import unjsonable
+    obj = unjsonable(json.load(open(path)))
+    tasks = []
+    if isinstance(obj.get("replay"), dict) and obj["replay"].get("task"):
+        tasks.append(obj["replay"]["task"])
+    tasks += [c["task"] for c in obj.get("disagreeing_cases", []) if c and c.get("task")]
+    rc = 0
+    for t in tasks:
+        r = pipeline(t)
+        print(json.dumps({"name": r["name"], "problems": r.get("problems"), "mismatch": r["mismatch"], "tags": r["tags"]}, indent=1, default=repr))
+        if r.get("problems") or r["mismatch"]:
+            print("VIOLATION property=C02 replay=%s" % path)
+            rc = 1
+    return rc
